@@ -398,10 +398,13 @@ def plan(tier, seed):
   for nm, _ in _ecdsa_checks(w) + [('CheckIssuerKey', None), ('CheckAllECDSASigs', None)]:
     slow = nm in ('CheckLCGNonceJavaUtilRandom', 'CheckAllECDSASigs', 'CheckIssuerKey')
     # all 10^4..10^5 ordered pairs are affordable only for the checks that cost milliseconds
-    full_ok = not slow and nm != 'CheckLCGNonceGMP'
+    full_ok = nm in ('CheckNonceMSB', 'CheckNonceCommonPrefix', 'CheckNonceCommonPostfix',
+                     'CheckNonceGeneralized')
     for g in sig_groups:
       mode = 'full' if (thorough and full_ok) else ('sparse' if not slow or thorough
                                                       else 'singles')
+      if thorough and slow and len(g) > 1:
+        mode = 'singles'  # pairs over two curves cost hours for the three slow checks
       T.append(Task('ecdsa-batches', 'ecdsa', {'check': nm, 'cids': g, 'mode': mode},
                     complete=(mode == 'full'),
                     bound='signatures: 9 known + 4 unknown/binary curve ids x 5 (r,s) x 5 hash '
@@ -412,11 +415,11 @@ def plan(tier, seed):
     layouts = 3
     if thorough:
       if nm in ('CheckNonceMSB', 'CheckCr50U2f'):
-        szs = list(range(0, 51)) + SIZE_EDGES
+        szs = list(range(0, 51)) + SIZE_EDGES[:9]
       elif nm == 'CheckLCGNonceJavaUtilRandom':
         szs = list(range(0, 27)) + [47, 48, 49]
       else:
-        szs = list(range(0, 51)) + SIZE_EDGES[:9]
+        szs = list(range(0, 51)) + [71, 72, 73]
     elif nm == 'CheckLCGNonceJavaUtilRandom':
       szs, layouts = [0, 1, 2, 23, 24, 25], 1
     elif nm == 'CheckLCGNonceGMP':
@@ -436,7 +439,7 @@ def plan(tier, seed):
                      'sizes': szs[part::nparts], 'layouts': layouts},
                     bound='every number 0..50 of distinct signatures per issuer and the values '
                     'around multiples of 24 (window sizes 24/48/120 of the nonce checks; up to '
-                    '241 in the thorough tier, fewer for the two slow LCG checks in the quick '
+                    '121 in the thorough tier, fewer for the two slow LCG checks in the quick '
                     'tier) x {one issuer, +1 signature of a second, two issuers} x 7 nonce '
                     'checks', weight=3e8))
   cidh = rot[seed % 9]
